@@ -415,6 +415,9 @@ structure Facts (ds : List Dir) (img : Image) : Prop where
   refs : refsOk (foundLabels ds (expected ds img.resolved.lens img.resolved.vals 0)) ds
           (expected ds img.resolved.lens img.resolved.vals 0) = true
   bound : ∀ e ∈ ofImage ds img, e.start + e.size ≤ img.bytes.length
+  pos : ∀ e ∈ ofImage ds img, 0 < e.size
+  hwalk : ∃ tail e, walk ds img.bytes 0 = some (expected ds img.resolved.lens img.resolved.vals 0, tail, e)
+  len4 : img.bytes.length % 4 = 0
 
 theorem facts_of_good (ds : List Dir) (img : Image) (g : Good ds img) : Facts ds img := by
   have hmap := map_withLoc ds
@@ -429,12 +432,20 @@ theorem facts_of_good (ds : List Dir) (img : Image) (g : Good ds img) : Facts ds
   unfold checkImage at hchk
   rw [hwalk] at hchk
   simp only [Bool.and_eq_true] at hchk
-  refine ⟨by rw [h1]; exact hok, by rw [h1]; exact hchk.1.1.1.1, ?_⟩
-  intro e he
-  unfold ofImage at he
-  rw [h1] at he
-  obtain ⟨k, hk1, hk2, _⟩ := walk_entries ds img.bytes 0 _ _ _ g.hp hwalk e he
-  omega
+  refine ⟨by rw [h1]; exact hok, by rw [h1]; exact hchk.1.1.1.1, ?_, ?_, ⟨_, _, by rw [h1]; exact hwalk⟩,
+    (assemble_size _ img (by rw [hmap]; exact g.hp) (by simpa using g.hn) g.hasm).2⟩
+  · intro e he
+    unfold ofImage at he
+    rw [h1] at he
+    obtain ⟨k, hk1, hk2, _⟩ := walk_entries ds img.bytes 0 _ _ _ g.hp hwalk e he
+    omega
+  · intro e he
+    unfold ofImage at he
+    rw [h1] at he
+    obtain ⟨k, _, _, hk3⟩ := walk_entries ds img.bytes 0 _ _ _ g.hp hwalk e he
+    cases hsz : e.size with
+    | zero => rw [hsz] at hk3; simp [decodeInstr, decodeChain] at hk3
+    | succ n => omega
 
 theorem sep_at : ∀ (ds : List Dir) (i : Nat) (d : Dir), Separated ds = true → ds[i]? = some d →
     fallsThrough d = true → startsData (ds.drop (i + 1)) = false := by
@@ -624,7 +635,7 @@ theorem step_sim (g : Good ds img) (F : Facts ds img) (c : Cfg) (io : IOSt) (c' 
     simp only at hop
     rw [hstep, hop]
     simp only [opcOf, d_ldbi, hld, hl, if_true, toSt, hft rfl]
-  | stai v m' hd hst =>
+  | stai v m' hd hst _ =>
     right
     obtain ⟨f, hf, hb, hft, hstep⟩ := am_step_instr g F c io _ hd rfl
     have hop := found_operand ds _ _ 0 c.i _ f hd hf
@@ -695,7 +706,7 @@ theorem step_sim (g : Good ds img) (F : Facts ds img) (c : Cfg) (io : IOSt) (c' 
     by_cases ha : c.a.toInt < 0
     · simp [ha]
     · rw [if_neg ha, if_neg ha, hft rfl]
-  | brb k hd hk hadr =>
+  | brb k kind n hd hk hadr =>
     right
     obtain ⟨f, hf, hb, hft, hstep⟩ := am_step_instr g F c io _ hd rfl
     have hop := found_operand ds _ _ 0 c.i _ f hd hf
